@@ -56,6 +56,7 @@ fn font_err(e: &AnyErr) -> String {
         Some(FontError::UnsupportedVersion(_)) => "UnsupportedVersion".into(),
         Some(FontError::LengthMismatch(_, _)) => "LengthMismatch".into(),
         Some(FontError::UnknownFontFormat(_)) => "UnknownFontFormat".into(),
+        Some(FontError::UnsupportedSize(_, _)) => "UnsupportedSize".into(),
         None => format!("other:{}", e.to_string().chars().take(60).collect::<String>()),
     }
 }
